@@ -30,7 +30,7 @@ COMPONENTS_REAL = ["geneticengine.representations.tree.initializations.create_no
 COMPONENTS_STUB = ["RandomSource.randint/random_float (SimRandom)", "Flaky metahandler (harness, through the documented custom-metahandler API)"]
 ASSUMPTIONS = ["the grammar's observable state is what the snapshot lists; abstract_dist_to_t (a defaultdict that grows on read) is not compared"]
 
-FEAT = features(flaky=3, dependent=3, refined=6, annlist=3, list=1, union=1, tuple=1, weights=1, cls=6, multi_dependent=1, deep_chain=1, hollow=1, barren=1, nested_start=1, abstract_weights=1, falsy=1)
+FEAT = features(flaky=3, dependent=3, refined=6, annlist=3, list=1, union=1, tuple=1, weights=1, cls=6, multi_dependent=1, deep_chain=1, hollow=1, barren=1, nested_start=1, abstract_weights=1, falsy=1, future_annotations=1)
 
 
 def budget(tier):
